@@ -308,6 +308,15 @@ func c10Work(w *h.W) {
 			// the (n+1)-th variable occurs twice in the head, and again in the body
 			c10Emit(w, c10Build(&ref.Cmp{F: "h", Args: append(append([]T{}, as...), V("X"), V("X"))}, nil, p, ""), n)
 			c10Emit(w, c10Build(Cm(":-", Cm("h", ref.List(as...), V("X"), V("R")), Cm("e", Cm("f", V("X"), ref.List(as...)), V("R"))), nil, p, ""), n)
+			// top-level disjunctive bodies behind heads of every size
+			{
+				dv0 := map[string]*ref.Var{}
+				hd0 := renameVarsKeep(&ref.Cmp{F: "h", Args: append(append([]T{}, as...), V("X"))}, dv0)
+				c10Emit(w, c10Build(Cm(":-", hd0, rdv("(X = small ; X = big)", dv0)), nil, p, ""), n)
+			}
+			hd := &ref.Cmp{F: "h", Args: append(append([]T{}, as...), V("X"), V("Y"))}
+			dv := map[string]*ref.Var{}
+			c10Emit(w, c10Build(Cm(":-", renameVarsKeep(hd, dv), rdv("(k(X) ; e(Y, b), k(X) ; fail ; e(X, Y))", dv)), nil, p, ""), n)
 		}
 	}
 	// S4: variables already bound in the asserting query, observed from later queries
@@ -472,4 +481,24 @@ func init() {
 		Replay:      c10Replay,
 		QuickDeadline: 150 * time.Second, ThoroughDeadline: 25 * time.Minute,
 	})
+}
+
+// renameVarsKeep re-creates t with variables taken from / added to the pool vars (by name).
+func renameVarsKeep(t T, vars map[string]*ref.Var) T {
+	switch x := t.(type) {
+	case *ref.Var:
+		if v, ok := vars[x.Name]; ok {
+			return v
+		}
+		v := V(x.Name)
+		vars[x.Name] = v
+		return v
+	case *ref.Cmp:
+		args := make([]T, len(x.Args))
+		for i, a := range x.Args {
+			args[i] = renameVarsKeep(a, vars)
+		}
+		return &ref.Cmp{F: x.F, Args: args}
+	}
+	return t
 }
